@@ -193,3 +193,91 @@ func Name(rdns ...[]ATV) []byte {
 	}
 	return Seq(sets...)
 }
+
+// Node is one TLV of a parsed DER document.
+type Node struct {
+	Tag      byte
+	Off      int // offset of the tag in the document
+	HdrLen   int
+	Len      int // content length
+	Children []*Node
+	Path     string // e.g. "0.3.1"
+}
+
+// Parse builds the TLV tree of a well-formed DER document (constructed nodes are descended;
+// OCTET/BIT STRING contents are not).
+func Parse(doc []byte) (*Node, error) {
+	n, used, err := parseAt(doc, 0, "0")
+	if err != nil {
+		return nil, err
+	}
+	if used != len(doc) {
+		return nil, fmt.Errorf("der: trailing bytes")
+	}
+	return n, nil
+}
+
+func parseAt(doc []byte, off int, path string) (*Node, int, error) {
+	if off+2 > len(doc) {
+		return nil, 0, fmt.Errorf("der: short")
+	}
+	tag := doc[off]
+	lb := doc[off+1]
+	hdr := 2
+	l := 0
+	if lb&0x80 == 0 {
+		l = int(lb)
+	} else {
+		nb := int(lb & 0x7f)
+		if nb == 0 || nb > 4 || off+2+nb > len(doc) {
+			return nil, 0, fmt.Errorf("der: bad length")
+		}
+		for i := 0; i < nb; i++ {
+			l = l<<8 | int(doc[off+2+i])
+		}
+		hdr += nb
+	}
+	if off+hdr+l > len(doc) {
+		return nil, 0, fmt.Errorf("der: length beyond data")
+	}
+	n := &Node{Tag: tag, Off: off, HdrLen: hdr, Len: l, Path: path}
+	if tag&0x20 != 0 {
+		p := off + hdr
+		i := 0
+		for p < off+hdr+l {
+			c, used, err := parseAt(doc, p, fmt.Sprintf("%s.%d", path, i))
+			if err != nil {
+				return nil, 0, err
+			}
+			n.Children = append(n.Children, c)
+			p += used
+			i++
+		}
+	}
+	return n, hdr + l, nil
+}
+
+// Walk visits every node.
+func (n *Node) Walk(f func(*Node)) {
+	f(n)
+	for _, c := range n.Children {
+		c.Walk(f)
+	}
+}
+
+// Rebuild re-serialises the tree; edit may return a replacement encoding for a node (whole TLV)
+// or nil to keep descending. Parent lengths are recomputed, so the result is consistent except
+// for what edit itself produced.
+func (n *Node) Rebuild(doc []byte, edit func(*Node) []byte) []byte {
+	if r := edit(n); r != nil {
+		return r
+	}
+	if len(n.Children) == 0 {
+		return append([]byte(nil), doc[n.Off:n.Off+n.HdrLen+n.Len]...)
+	}
+	var parts [][]byte
+	for _, c := range n.Children {
+		parts = append(parts, c.Rebuild(doc, edit))
+	}
+	return TLV(n.Tag, parts...)
+}
